@@ -412,9 +412,16 @@ def build(tier, mutate=None, seed=0):
             rng.shuffle(unsets)
             unsets = unsets[:3]
         else:
-            unsets = fields_
-        variants += [(p, s, None, nseq, dn, 1) for p, s in longs]
-        variants += [(None, 1, u, nseq, dn, 2) for u in unsets]
+            # thorough: a larger sample of unset fields and of (field, boundary size) pairs; three list elements only in the base
+            # variants (the full product ran for more than two hours)
+            rng.shuffle(longs)
+            longs = longs[:8]
+            unsets = fields_[:]
+            rng.shuffle(unsets)
+            unsets = unsets[:8]
+        nseq_v = 2 if tier == "thorough" else nseq
+        variants += [(p, s, None, nseq_v, dn, 1) for p, s in longs]
+        variants += [(None, 1, u, nseq_v, dn, 2) for u in unsets]
         variants = [v + (None,) for v in variants]
         variants += [(None, 1, None, nseq, dn, 1, ep) for ep in seq_struct_paths(C, cls, clsname)]
         for lp, ls, up, ns, ni, rot, ep in variants:
